@@ -710,6 +710,9 @@ pub fn scenarios(filter: &str, thorough: bool) -> Vec<ConnScenario> {
                 vec![Connect, ExitX, CutLink(0)],
                 vec![Connect, ExitX, RemoteOpenX, CutLink(0)],
                 vec![Connect, ExitX, KillRemote],
+                // the remote keeps opening substreams of the protocol that has shut down
+                vec![Connect, ExitX, RemoteOpenX, RemoteOpenX, CutLink(0)],
+                vec![Connect, ExitX, RemoteOpenX, RemoteOpenX, RemoteOpenX, KillRemote],
             ] {
                 v.push(sc("c07", ka, false, 8, prog));
             }
